@@ -145,6 +145,14 @@ func baseSchedules() []Scenario {
 		Initial: []Placement{{Shard: 0, ID: 0}, {Shard: 0, ID: 1}, {Shard: 0, ID: 2}}})
 	// the overload that starts the relief moves ends while they are under way: an interrupted move is not simply redone
 	spike.Events = []Event{{AtCycle: 3, Kind: "grow", Target: TargetSpec{ID: 0, Kept: 15}}, {AtCycle: 3, Kind: "grow", Target: TargetSpec{ID: 1, Kept: 15}}, {AtCycle: 3, Kind: "grow", Target: TargetSpec{ID: 2, Kept: 15}}}
+	// chained move: a relief destination becomes overloaded itself (its own target grows) while the first
+	// source, whose Prometheus scrapes rarely, has not finished the hand-over yet
+	chain := mk(Spec{MaxHead: 100, MaxProc: 1000, Min: 3, Max: 8, Idle: "1000h", InitShards: 3, Targets: []TargetSpec{t(0, 60), t(1, 55), t(2, 30), t(3, 5)},
+		Initial: []Placement{{Shard: 0, ID: 0}, {Shard: 0, ID: 1}, {Shard: 1, ID: 2}, {Shard: 2, ID: 3}}})
+	chain.Events = []Event{{AtCycle: 3, Kind: "grow", Target: TargetSpec{ID: 2, Kept: 62}}}
+	for c := 0; c < c06Perturbed; c++ {
+		chain.ScrapePlan = append(chain.ScrapePlan, []int{1, 3, 3, 3, 3, 3, 3, 3})
+	}
 	return []Scenario{
 		// first assignment with scale-up
 		mk(Spec{MaxHead: 100, MaxProc: 150, Min: 1, Max: 8, Idle: "1ns", InitShards: 1, Targets: []TargetSpec{t(0, 30), t(1, 40), t(2, 49), t(3, 60)}}),
@@ -158,6 +166,7 @@ func baseSchedules() []Scenario {
 		mk(Spec{MaxHead: 0, MaxProc: 150, Min: 2, Max: 8, Idle: "1000h", InitShards: 2, ReadyDelay: 2, KeepPVC: true, Residue: 3, Targets: []TargetSpec{t(0, 60), t(1, 49), t(2, 30), t(3, 10)},
 			Initial: []Placement{{Shard: 0, ID: 0}, {Shard: 0, ID: 3}, {Shard: 1, ID: 1}, {Shard: 1, ID: 2}}}),
 		spike,
+		chain,
 	}
 }
 
@@ -184,11 +193,11 @@ func singleFaults() []Event {
 func c06Cases(tier string, seed uint64) []c06Case {
 	var cs []c06Case
 	singles := singleFaults()
-	bases := []int{0, 1, 4}
+	bases := []int{0, 1, 4, 5}
 	if tier == "thorough" {
-		bases = []int{0, 1, 2, 3, 4}
+		bases = []int{0, 1, 2, 3, 4, 5}
 	}
-	for _, b := range []int{0, 1, 2, 3, 4} {
+	for _, b := range []int{0, 1, 2, 3, 4, 5} {
 		cs = append(cs, c06Case{Base: b}) // fault-free control
 	}
 	for _, b := range bases {
@@ -207,12 +216,12 @@ func c06Cases(tier string, seed uint64) []c06Case {
 		}
 		r := core.NewRng(seed, 0xC06)
 		for k := 0; k < 200; k++ {
-			cs = append(cs, c06Case{Base: r.Intn(5), Faults: []Event{singles[r.Intn(len(singles))], singles[r.Intn(len(singles))]}})
+			cs = append(cs, c06Case{Base: r.Intn(6), Faults: []Event{singles[r.Intn(len(singles))], singles[r.Intn(len(singles))]}})
 		}
 		return cs
 	}
 	// thorough: every pair on the two smallest schedules, sampled triples elsewhere
-	for _, b := range []int{1, 4} {
+	for _, b := range []int{1, 4, 5} {
 		for i := range singles {
 			for j := i + 1; j < len(singles); j++ {
 				cs = append(cs, c06Case{Base: b, Faults: []Event{singles[i], singles[j]}})
@@ -221,7 +230,7 @@ func c06Cases(tier string, seed uint64) []c06Case {
 	}
 	r := core.NewRng(seed, 0xC06)
 	for k := 0; k < 3000; k++ {
-		cs = append(cs, c06Case{Base: r.Intn(5), Faults: []Event{singles[r.Intn(len(singles))], singles[r.Intn(len(singles))], singles[r.Intn(len(singles))]}})
+		cs = append(cs, c06Case{Base: r.Intn(6), Faults: []Event{singles[r.Intn(len(singles))], singles[r.Intn(len(singles))], singles[r.Intn(len(singles))]}})
 	}
 	return cs
 }
@@ -238,9 +247,9 @@ func init() {
 	core.Register(&core.Prop{
 		ID:    "C06",
 		Level: "fault_enumeration",
-		Rule: "same closed loop as C03; 5 fixed small base schedules (first assignment with scale-up; relief of an overloaded shard; scale-down emptying the tail; steady state with late pods, kept volumes, head residue; relief whose overload ends while the moves are under way), 8 perturbed cycles each; " +
+		Rule: "same closed loop as C03; 6 fixed small base schedules (first assignment with scale-up; relief of an overloaded shard; scale-down emptying the tail; steady state with late pods, kept volumes, head residue; relief whose overload ends while the moves are under way; a chained move: the relief destination becomes overloaded itself while the first source, scraping rarely, has not finished the hand-over), 8 perturbed cycles each; " +
 			"fault alphabet injected at harness-owned boundaries, each armed for exactly the cycle(s) stated: target POST not delivered, POST delivered but answer lost, sidecar restart from its store, shard not ready for 1-2 cycles, status GET failing 1-2 cycles, runtime GET failing, config hash out of sync with rejected push for 1-2 cycles, tail shard removed while holding targets (+ late new shards via the schedule); " +
-			"enumeration: EVERY placement of one fault (11 variants x 8 cycles x shard 0..2) on three schedules (thorough: all five), a strided third on the others, 200 seed-sampled pairs (thorough: every pair on the two relief schedules + 3000 sampled triples); after the last fault the C03 predicate must be reached within B quiet cycles and stay for 5; " +
+			"enumeration: EVERY placement of one fault (11 variants x 8 cycles x shard 0..2) on four schedules (thorough: all six), a strided third on the others, 200 seed-sampled pairs (thorough: every pair on the three relief schedules + 3000 sampled triples); after the last fault the C03 predicate must be reached within B quiet cycles and stay for 5; " +
 			"non-trivial = a fault was really applied (or the control); distinct = (schedule, fault placements)",
 		Assumptions: []string{
 			"faults are injected in the harness' wrappers around the real api.Get/api.Post, in the simulated StatefulSet and by rebuilding the sidecar on its store; a fault that cannot apply (no such shard at that time) is recorded as not applied",
